@@ -15,8 +15,9 @@ Bad(p) ==
   \cup {<<"EdgeInModel", e>> : e \in {x \in ToSet(p.edges) : ~EdgeOK(x[1], x[2], x[3], x[4], x[5])}}
   \cup {<<"LeafRule", e>> : e \in {x \in ToSet(p.leaf) : ~LeafOK(x[1], x[2], x[3], x[4], x[5])}}
   \cup {<<"DepthRestored", e>> : e \in ToSet(p.restore_bad)}
-  \* the depth counter also counts the nesting of declarations around a body (classes, functions, lambdas: DeclSlack, calibrated)
-  \cup (IF p.maxdepth > 2 * p.max_depth + 3 + DeclSlack THEN {<<"DepthBounded", p.maxdepth>>} ELSE {})
+  \* (the raw depth counter also counts the nesting of declarations around a body - classes, functions, lambdas - and the zero-cost
+  \*  links of F17; a calibrated slack for it failed on larger samples and was dropped: the statement bounds the *expression nesting*,
+  \*  which is NestingBound below)
   \cup (IF p.maxnest_paid > NestBound(p.max_depth) THEN {<<"NestingBound", p.maxnest_paid>>} ELSE {})
   \cup (IF p.calls > 1000000 THEN {<<"StepBudget", p.calls>>} ELSE {})
 Report == LET p == Progs[c]  b == Bad(p) IN b = {} \/ PrintT(ToJson([prog |-> p.id, bad |-> b]))
